@@ -217,8 +217,8 @@ def split_literals(p: bytes, v):
         k = 2 + v.num(4)
         cuts = sorted(v.num(len(p) + 1) for _ in range(k - 1))
         parts = [p[a:b] for a, b in zip([0] + cuts, cuts + [len(p)])]
-        if not any(OPERATOR_LIT.fullmatch(x) for x in parts if x):
-            return parts
+        if not any(OPERATOR_LIT.fullmatch(x) for x in parts if x) and not any(re.fullmatch(rb"(?i)cmd(\.exe)?", x) for x in parts):
+            return parts  # (a literal that is exactly "cmd" would be a quoted cmd token, not neutral text)
     return None
 
 
@@ -294,7 +294,7 @@ def enc_cmd(p, v):
     return b"cmd /c " + c, "shell.cmd", "unescape.shell.carets", b"cmd /c " + p, 7
 
 
-FILLER = b" lorem ipsum dolor amet quux zzyzx"
+FILLER = b"\x00 lorem ipsum dolor amet quux zzyzx"
 
 
 def enc_psbytes(p, v):
